@@ -219,3 +219,30 @@ CORPUS += [
           '    @update\n    def up2():\n      s.o4 @= 0\n      for i in range(8):\n        s.o4[i] @= s.a[i] & s.b[7-i]\n'
           '    @update\n    def up4():\n      v = s.b | 0\n      w = v = v + 1\n      s.o7 @= w\n      s.o8 @= v + (2*s.N)\n'},
 ]
+
+# ---------------------------------------------------------------------------------------------
+# round 7: F10 variant const-array-field - a struct CONSTANT with a list-of-struct field connected to a struct output, with
+# further connections and a child after it.  Only the forms of `cfg` are affected on the current tree ('scope'); invalid
+# text or damage to the other connections is not part of the known finding (seeded C12-6).
+# ---------------------------------------------------------------------------------------------
+WITNESSES += [
+  {'label': 'F10-struct-output-written-by-field:const-array-field:witness', 'finding': 'F10-struct-output-written-by-field', 'variant': 'const-array-field',
+   'expect': ('multi-driver', 'undriven'), 'scope': ('cfg',), 'backends': ('yosys',), 'features': ['finding-stream'],
+   'cycles': [{'.in_': 5, '.reset': 0}, {'.in_': 200, '.reset': 0}],
+   'src': 'from pymtl3 import *\n'
+          '@bitstruct\nclass Pair:\n  x: Bits4\n  y: Bits2\n\n@bitstruct\nclass Cfg:\n  a: Bits4\n  b: [ Pair ] * 2\n\n'
+          'class Inc( Component ):\n  def construct( s ):\n    s.in_ = InPort( Bits8 )\n    s.out = OutPort( Bits8 )\n    s.out //= s.in_\n\n'
+          'class Top( Component ):\n  def construct( s ):\n    s.in_ = InPort( Bits8 )\n    s.cfg = OutPort( Cfg )\n    s.o1 = OutPort( Bits8 )\n    s.o2 = OutPort( Bits8 )\n'
+          '    s.sub = Inc()\n    s.cfg //= Cfg( 1, [ Pair( 2, 3 ), Pair( 4, 1 ) ] )\n    s.sub.in_ //= s.in_\n    s.o1 //= s.sub.out\n    s.o2 //= s.in_\n'},
+]
+CORPUS += [
+  {'label': 'corpus:struct-constant-with-list-of-struct-fields-connected', 'backends': ('verilog',), 'features': ['corpus'],
+   'src': 'from pymtl3 import *\n'
+          '@bitstruct\nclass Pair:\n  x: Bits4\n  y: Bits2\n\n@bitstruct\nclass Deep:\n  p: [ Pair ] * 2\n  z: Bits3\n\n'
+          '@bitstruct\nclass Cfg:\n  a: Bits4\n  b: [ Pair ] * 2\n  c: [ [ Pair ] * 2 ] * 2\n  d: [ Deep ] * 2\n\n'
+          'class Inc( Component ):\n  def construct( s ):\n    s.in_ = InPort( Bits8 )\n    s.out = OutPort( Bits8 )\n    s.k = OutPort( Pair )\n    s.out //= s.in_\n    s.k //= Pair( 3, 1 )\n\n'
+          'class Top( Component ):\n  def construct( s ):\n    s.in_ = InPort( Bits8 )\n    s.cfg = OutPort( Cfg )\n    s.o1 = OutPort( Bits8 )\n    s.o2 = OutPort( Bits8 )\n    s.k = OutPort( Pair )\n'
+          '    s.sub = Inc()\n'
+          '    s.cfg //= Cfg( 1, [ Pair( 2, 3 ), Pair( 4, 1 ) ], [ [ Pair(1,1), Pair(2,2) ], [ Pair(3,3), Pair(4,0) ] ], [ Deep( [ Pair(5,1), Pair(6,2) ], 5 ), Deep( [ Pair(7,3), Pair(8,0) ], 2 ) ] )\n'
+          '    s.sub.in_ //= s.in_\n    s.o1 //= s.sub.out\n    s.o2 //= s.in_\n    s.k //= s.sub.k\n'},
+]
